@@ -34,6 +34,10 @@ ASSUMPTIONS = [
     "phase: sign change of the apparent longitude difference within the time "
     "equivalent of 0.06 deg (0.0049 d); node: |latitude| <= 0.02 deg at the "
     "returned instant",
+    "the parallax reported with a perigee/apogee is asin(6378.14 km / "
+    "distance at the returned instant) to 2 arcsec (the finder's parallax "
+    "series against the position series: at most 0.78 arcsec at perigee and "
+    "0.18 at apogee over -2000..4000 on the unchanged tree)",
 ]
 EXHAUSTIVE = {"quick": False, "thorough": False}
 J2000 = 2451545.0
@@ -238,7 +242,13 @@ def judge_event(mon, fi, q, t, extra):
         mon.check("apsis.distance-extremal", ok,
                   lambda: dict(case, rate_before=a, rate_after=b))
         par = math.degrees(math.asin(6378.14 / moon_dist(t)))
-        mon.check("apsis.reported-parallax", abs(extra() - par) <= 0.002,
+        mon.stat("apsis_reported_parallax_err_arcsec %s" % target,
+                 abs(extra() - par) * 3600.0, case)
+        # the parallax series of the finder against the position series:
+        # at most 0.78" (perigee) and 0.18" (apogee) apart over -2000..4000
+        # on the unchanged tree; 2" allowed
+        mon.check("apsis.reported-parallax",
+                  abs(extra() - par) * 3600.0 <= 2.0,
                   lambda: dict(case, reported=extra(), at_instant=par))
     elif kind == "node":
         la = moon_lat(t)
